@@ -166,7 +166,7 @@ def run_stage(fn, todo, outname, workers):
 
 if __name__ == "__main__":
     cmd = sys.argv[1]
-    workers = int(sys.argv[2]) if len(sys.argv) > 2 else 6
+    workers = int(sys.argv[2]) if len(sys.argv) > 2 and sys.argv[2].isdigit() else 6
     if cmd == "gen":
         gen()
     elif cmd == "analyse":
@@ -181,3 +181,15 @@ if __name__ == "__main__":
         for m in a:
             if m["status"] == "silent" and t.get(m["id"], {}).get("suite") == "pass":
                 print(m["id"], m["file"], m["line"], m["op"], "|", m["old"].strip()[:110])
+
+
+def recheck(ids):
+    """re-analyse the listed mutants with the current rules and print what fires"""
+    ms = {m["id"]: m for m in load("mutants.jsonl")}
+    with Pool(5) as pool:
+        for r in pool.imap_unordered(analyse_one, [ms[i] for i in ids]):
+            print(r["id"], r["file"], r["line"], r["op"], r["status"], {p: [k[:70] for k in ks][:2] for p, ks in (r.get("reported") or {}).items()})
+
+
+if __name__ == "__main__" and sys.argv[1] == "recheck":
+    recheck(sys.argv[2:])
